@@ -443,7 +443,7 @@ pub fn edge_one(args: &[String]) -> i32 {
     let c = &e["cfg"];
     let cfg = Cfg { p: c["P"].as_u64().unwrap_or(0) as usize, min: 0, max: 0, muts: e.get("muts").and_then(|m| serde_json::from_value(m.clone()).ok()).unwrap_or_default(),
         mut_unsafe: c["unsafe"].as_u64() == Some(1), rate: e.get("rate").and_then(|r| r.as_f64()).unwrap_or(0.1), rate_raw: false, rate_special: String::new(),
-        unsafe_: c["unsafe"].as_u64() == Some(1), ext: c["ext"].as_u64() == Some(1), buf: c["buf"].as_u64() == Some(1) };
+        unsafe_: c["unsafe"].as_u64() == Some(1), ext: c["ext"].as_u64() == Some(1), buf: c["buf"].as_u64() == Some(1), bufsize: None, alt_builder: false };
     std::panic::set_hook(Box::new(|_| {}));
     let order = all_ops_sorted();
     let mut g = fresh(&cfg);
